@@ -36,6 +36,7 @@ class StrictSdoServer:
         self.blk_i = 0
         self.pst_seen = None
         self.completed = []          # kinds of completed transfers
+        self.ack_log = []            # block upload: (ackseq received, segments sent in that sub-block)
 
     # ------------------------------------------------------------ helpers
     def _viol(self, code, f, text):
@@ -344,7 +345,7 @@ class StrictSdoServer:
                 self._viol("blksize", f, f"block size {blk}")
                 return self._abort(st["mux"], 0x05040002)
             st["pos"] += 7 * ack
-            st["acks"] = st.get("acks", []) + [(ack, st["sent"])]
+            self.ack_log.append((ack, st["sent"]))
             st["blksize"] = blk
             if st["pos"] >= len(st["data"]):
                 st["phase"] = "end"
